@@ -115,7 +115,7 @@ class Inliner:
         return cal
 
     # ---- the body of a helper, ready to be spliced
-    def instantiate(self, call, cal, caller_names):
+    def instantiate(self, call, cal, caller_names, alias_params=()):
         self.count += 1
         off = 100000 * self.count
         params = cal.get('params', [])
@@ -145,7 +145,7 @@ class Inliner:
             ua = _unwrap(a)
             plain = isinstance(ua, dict) and ((ua.get('k') == 'ref' and ua.get('rk') in ('local', 'param') and
                                                ((ua.get('rk'), ua.get('id')) not in byref_roots or t.get('k') == 'ptr')) or 'cv' in ua or ua.get('k') == 'lit')
-            if t.get('k') == 'ref':
+            if t.get('k') == 'ref' or p['id'] in alias_params:
                 refsub[p['id']] = a
             elif p['id'] not in written and plain and t.get('k') != 'ptr' or (p['id'] not in written and plain and t.get('k') == 'ptr' and ua.get('k') == 'ref'):
                 refsub[p['id']] = a
@@ -240,11 +240,32 @@ class Inliner:
     def splice_value(self, stmt, call, cal, caller, caller_names):
         """statement containing exactly one call (to a helper that computes a value and returns it at its end): the helper's statements,
         then the statement with the call replaced by the returned expression"""
-        pre, body = self.instantiate(call, cal, caller_names)
+        # `V = helper(.., V, ..)` where the helper returns that very parameter at its end: the parameter IS the caller's variable
+        alias_params = ()
+        e0 = _unwrap(stmt.get('e')) if stmt.get('k') == 'expr' else None
+        crets = self.returns(cal['body'])
+        cst = list(cal['body'].get('body', [])) if cal['body'].get('k') == 'compound' else [cal['body']]
+        if isinstance(e0, dict) and e0.get('k') == 'assign' and e0.get('op') == '=' and len(crets) == 1 and cst and cst[-1] is crets[0]:
+            lhs = _unwrap(e0['lhs'])
+            rp = _unwrap(crets[0].get('e'))
+            if isinstance(lhs, dict) and lhs.get('k') == 'ref' and lhs.get('rk') in ('local', 'param') and isinstance(rp, dict) and \
+                    rp.get('k') == 'ref' and rp.get('rk') == 'param':
+                for p_, a_ in zip(cal.get('params', []), call.get('args', [])):
+                    ua_ = _unwrap(a_)
+                    if p_['id'] == rp.get('id') and (p_.get('t') or {}).get('k') not in ('ref', 'ptr', 'record', 'array') and \
+                            isinstance(ua_, dict) and ua_.get('k') == 'ref' and (ua_.get('rk'), ua_.get('id')) == (lhs.get('rk'), lhs.get('id')):
+                        # the variable must not reach the helper any other way
+                        others = [b_ for b_ in call.get('args', []) if b_ is not a_]
+                        if not any(isinstance(y, dict) and y.get('k') == 'ref' and (y.get('rk'), y.get('id')) == (lhs.get('rk'), lhs.get('id'))
+                                   for b_ in others for y in walk(b_)):
+                            alias_params = (p_['id'],)
+        pre, body = self.instantiate(call, cal, caller_names, alias_params)
         stmts = list(body.get('body', [])) if body.get('k') == 'compound' else [body]
         rets = self.returns(body)
         if len(rets) != 1 or not stmts or stmts[-1] is not rets[0] or rets[0].get('e') is None:
             return None
+        if alias_params:
+            return pre + stmts[:-1]          # the assignment V = V is dropped
         rex = rets[0]['e']
 
         def repl(n):
@@ -742,6 +763,7 @@ class PointerWalks:
                     if v.get('id') is not None:
                         decls[v['id']] = v
         self.f, self.names, self.decls = f, names, decls
+        self.loop_depth = 0
         f['body'] = self._stmt(f['body'])
 
     def _stmt(self, s):
@@ -755,9 +777,14 @@ class PointerWalks:
             if r is not None:
                 s = r
         out = dict(s)
+        inner = k in ('for', 'while', 'do')
+        if inner:
+            self.loop_depth += 1
         for key in ('body', 'then', 'else', 'taken'):
             if isinstance(s.get(key), (dict, list)) and k in ('compound', 'if', 'for', 'while', 'do', 'constexpr_if'):
                 out[key] = self._stmt(s[key])
+        if inner:
+            self.loop_depth -= 1
         return out
 
     def _roots_written(self, body, exprs):
@@ -809,6 +836,15 @@ class PointerWalks:
         base = v['init']
         if not _pure(base):
             return None
+        # `T* p = BASE + V` with V an integer local that is dead after the loop: V itself is the index (the loop continues a cursor)
+        start_var = None
+        ub = _unwrap(base)
+        if isinstance(ub, dict) and ub.get('k') == 'bin' and ub.get('op') == '+':
+            sv = _unwrap(ub['rhs'])
+            if isinstance(sv, dict) and sv.get('k') == 'ref' and sv.get('rk') == 'local' and (sv.get('t') or {}).get('k') == 'int' and \
+                    ((_unwrap(ub['lhs']).get('t') or {}).get('k') in ('ptr', 'array')):
+                start_var = sv
+                base = ub['lhs']
         ui = _unwrap(inc)
         if not (isinstance(ui, dict) and ui.get('k') == 'un' and ui.get('op') == '++' and _unwrap(ui.get('e')).get('id') == pid):
             return None
@@ -847,12 +883,35 @@ class PointerWalks:
                 return None
             if x.get('k') == 'index' and isinstance(_unwrap(x.get('base')), dict) and _unwrap(x['base']).get('k') == 'ref' and _unwrap(x['base']).get('id') == pid:
                 return None
+        if start_var is not None:
+            # dead after the loop: not inside another loop, never mentioned later in the function, not written in the body
+            def last_loc(x):
+                best = (0, 0)
+                for y in walk(x):
+                    if isinstance(y, dict) and isinstance(y.get('l'), tuple) and (y['l'][1], y['l'][2]) > best:
+                        best = (y['l'][1], y['l'][2])
+                return best
+            end_of_loop = last_loc(s)
+            later = any(isinstance(y, dict) and y.get('k') == 'ref' and y.get('rk') == 'local' and y.get('id') == start_var['id'] and
+                        isinstance(y.get('l'), tuple) and (y['l'][1], y['l'][2]) > end_of_loop for y in walk(self.f['body']))
+            if self.loop_depth > 0 or later or self._roots_written(body, [start_var]):
+                return None
         self.count += 1
-        iname = 'i' if 'i' not in self.names else 'i_%d' % self.count
-        self.names.add(iname)
+        iname = None
+        for cand in ('i', 'j', 'k', 'idx'):
+            if cand not in self.names:
+                iname = cand
+                break
+        iname = iname or 'i_%d' % self.count
         iid = 900000 + self.count
+        if start_var is not None:
+            iname, iid = start_var.get('name'), start_var['id']
+        self.names.add(iname)
+        rid = 950000 + self.count
         loc = s.get('l')
         elem_t = t.get('pointee')
+        ref_t = {'k': 'ref', 'pointee': elem_t, 's': (elem_t or {}).get('s', '?') + ' &'}
+        pname = v.get('name')
 
         def iref():
             return {'k': 'load', 't': INT_T, 'l': loc, 'e': {'k': 'ref', 'rk': 'local', 'id': iid, 'name': iname, 't': INT_T, 'lv': True, 'l': loc}}
@@ -860,27 +919,36 @@ class PointerWalks:
         def elem():
             return {'k': 'index', 'base': base, 'idx': iref(), 't': elem_t, 'lv': True, 'l': loc}
 
+        def cur():
+            # the current element, through a reference local that carries the pointer's name (`T& p = BASE[i];`, the form the tables know)
+            return {'k': 'ref', 'rk': 'local', 'id': rid, 'name': pname, 't': ref_t, 'lv': True, 'l': loc}
+
         def is_p(e):
             u = _unwrap(e)
             return isinstance(u, dict) and u.get('k') == 'ref' and u.get('rk') == 'local' and u.get('id') == pid
 
         def fix(n):
             if n.get('k') == 'member' and n.get('arrow') and is_p(n.get('base')):
-                return dict(n, arrow=False, base=elem())
+                return dict(n, arrow=False, base=cur())
             if n.get('k') == 'un' and n.get('op') == '*' and is_p(n.get('e')):
-                return elem()
+                return cur()
             return None
         new_body = _copy(body, fix)
         # any remaining mention of p: the address of the current element
         def fix2(n):
             if n.get('k') == 'load' and isinstance(n.get('e'), dict) and n['e'].get('k') == 'ref' and n['e'].get('rk') == 'local' and n['e'].get('id') == pid:
-                return {'k': 'un', 'op': '&', 'e': elem(), 't': t, 'l': loc}
+                return {'k': 'un', 'op': '&', 'e': cur(), 't': t, 'l': loc}
             return None
         new_body = _copy(new_body, fix2)
         if any(isinstance(x, dict) and x.get('k') == 'ref' and x.get('rk') == 'local' and x.get('id') == pid for x in walk(new_body)):
             return None
+        rdecl = {'k': 'decl', 'l': loc, 'vars': [{'id': rid, 'name': pname, 't': ref_t, 'init': elem(), 'l': loc}]}
+        nb = list(new_body.get('body', [])) if new_body.get('k') == 'compound' else [new_body]
+        new_body = {'k': 'compound', 'l': (new_body.get('l') or loc), 'body': [rdecl] + nb}
         new_init = {'k': 'decl', 'l': loc, 'vars': [{'id': iid, 'name': iname, 't': INT_T, 'l': loc,
                                                     'init': {'k': 'lit', 'cv': '0', 't': INT_T, 'l': loc}}]}
+        if start_var is not None:
+            new_init = None
         new_c = {'k': 'bin', 'op': uc['op'], 'lhs': iref(), 'rhs': nexpr, 't': uc.get('t'), 'l': uc.get('l')}
         new_inc = {'k': 'un', 'op': '++', 'post': True, 't': INT_T, 'l': loc,
                    'e': {'k': 'ref', 'rk': 'local', 'id': iid, 'name': iname, 't': INT_T, 'lv': True, 'l': loc}}
